@@ -195,6 +195,64 @@ func (w *World) BigIntGlobals() map[*ssa.Global]string {
 	return w.bigIntGlobals
 }
 
+// singleStoreCell: the local cell is written by exactly one store, in the block that allocates it, and is otherwise only
+// loaded - by the function itself or by closures that capture it (checked through the captured variables, nested
+// closures included). Nothing else can change what it holds.
+func (w *World) singleStoreCell(al *ssa.Alloc) bool {
+	if w.singleStore == nil {
+		w.singleStore = map[*ssa.Alloc]bool{}
+	}
+	if r, ok := w.singleStore[al]; ok {
+		return r
+	}
+	var onlyLoaded func(v ssa.Value, depth int) (stores int, ok bool)
+	onlyLoaded = func(v ssa.Value, depth int) (int, bool) {
+		if depth > 6 || v.Referrers() == nil {
+			return 0, false
+		}
+		stores := 0
+		for _, r := range *v.Referrers() {
+			switch x := r.(type) {
+			case *ssa.UnOp:
+				if x.Op != token.MUL {
+					return 0, false
+				}
+			case *ssa.DebugRef:
+			case *ssa.Store:
+				if x.Addr != v || x.Val == v {
+					return 0, false
+				}
+				if a, isA := v.(*ssa.Alloc); !isA || x.Block() != a.Block() {
+					return 0, false
+				}
+				stores++
+			case *ssa.MakeClosure:
+				fn, ok := x.Fn.(*ssa.Function)
+				if !ok {
+					return 0, false
+				}
+				for i, b := range x.Bindings {
+					if b == v {
+						if i >= len(fn.FreeVars) {
+							return 0, false
+						}
+						n, ok := onlyLoaded(fn.FreeVars[i], depth+1)
+						if !ok || n > 0 {
+							return 0, false
+						}
+					}
+				}
+			default:
+				return 0, false
+			}
+		}
+		return stores, true
+	}
+	n, ok := onlyLoaded(al, 0)
+	w.singleStore[al] = ok && n == 1
+	return w.singleStore[al]
+}
+
 func typeKeyOf(t types.Type) string {
 	if n, ok := types.Unalias(t).(*types.Named); ok && n.Obj().Pkg() != nil {
 		return n.Obj().Pkg().Path() + "." + n.Obj().Name()
